@@ -203,6 +203,8 @@ def run(ctx):
     else:
         ctx.violated(r4, nb, "sample length check", "samples whose length differs from the channel's bin count are no longer refused", node=nb.node)
 
+    _lengths_interpreted(ctx, r4, r6, repo, reg)
+
     # ------------------------------------------------------------ R5
     none_keys = set()
     for key, (b, c) in sorted(reg.items()):
@@ -310,3 +312,87 @@ def _unconditional(test, cmpnode):
     if isinstance(test, ast.BoolOp) and isinstance(test.op, ast.Or):
         return any(_unconditional(v, cmpnode) for v in test.values)
     return False
+
+
+def _lengths_interpreted(ctx, r4, r6, repo, reg):
+    """Builders and the requirement merge INTERPRETED on wrong-length inputs: every one must end in a pyhf exception."""
+    from .. import listnp
+    from ..alg import AutoRegion, PyFunc, RaisedInFragment, to_poly
+    from ..objmodel import World
+    at, c = Poly.atom, Poly.const
+    errs = (Undecided, KeyError, TypeError, ValueError, IndexError, AttributeError)
+    pyhf_excs = set(repo.module("src/pyhf/exceptions/__init__.py").classes)
+    nb = {"c1": 2, "c2": 2}
+
+    def run_builder(b, key, cells):
+        ext = listnp.externals()
+        ext.update({"required_parset": lambda a, k: {"required": True}})
+        w = World(ext, region=AutoRegion(), module_env={"pyhf": Obj("pyhf", {"default_backend": Obj("default_backend")}), "exceptions": Obj("exceptions")})
+        w.add_class(b)
+        cfg = Obj("config", {"channel_nbins": {k_: c(v_) for k_, v_ in nb.items()}, "channels": ["c1", "c2"], "samples": ["s"]})
+        inst = w.new(b, [cfg], {})
+        for ch, moddata in cells:
+            samp = {"name": "s", "data": [at(f"n_{ch}_{j}") for j in range(nb[ch])]}
+            thismod = None if moddata is None else {"name": key.split("/")[1], "type": key.split("/")[0], "data": moddata}
+            w.call_method(inst, "append", [key, ch, "s", thismod, samp])
+        return w.call_method(inst, "finalize", [])
+
+    def vec(tag, n):
+        return [at(f"{tag}{j}") for j in range(n)]
+
+    for typ in ("histosys", "shapesys", "staterror"):
+        if typ not in reg:
+            continue
+        b = reg[typ][0]
+        key = f"{typ}/m"
+        if typ == "histosys":
+            def d(n_lo, n_hi=None, t=""):
+                return {"lo_data": vec(f"lo{t}", n_lo), "hi_data": vec(f"hi{t}", n_lo if n_hi is None else n_hi)}
+            cases = [("well-formed", [("c1", d(2)), ("c2", d(2, t="b"))], False), ("too long", [("c1", d(3)), ("c2", None)], True), ("too short", [("c1", d(1)), ("c2", None)], True),
+                     ("only lo_data too long", [("c1", d(3, 2)), ("c2", None)], True), ("only hi_data too short", [("c1", d(2, 1)), ("c2", None)], True),
+                     ("one too long in c1, one too short in c2 (lengths cancel)", [("c1", d(3)), ("c2", d(1, t="b"))], True)]
+        else:
+            cases = [("well-formed", [("c1", vec("u", 2)), ("c2", vec("v", 2))], False), ("too long", [("c1", vec("u", 3)), ("c2", None)], True), ("too short", [("c1", vec("u", 1)), ("c2", None)], True),
+                     ("one too long in c1, one too short in c2 (lengths cancel)", [("c1", vec("u", 3)), ("c2", vec("v", 1))], True)]
+        for lab, cells, must_raise in cases:
+            site = f"{b.relpath}::{b.name} [{lab}]"
+            try:
+                run_builder(b, key, cells)
+                if must_raise:
+                    ctx.violated(r4, b.methods.get("append") or b, f"{typ} data length [{lab}]", f"a {typ} modifier whose data length differs from the bin count of the channel it is declared in is accepted: its values are dropped or applied to other bins", expected="raise InvalidModifier", found="accepted")
+                else:
+                    ctx.holds(r4, site, "accepted")
+            except RaisedInFragment as e:
+                cls_ = e.exc_name.split(".")[-1]
+                if must_raise and cls_ in pyhf_excs:
+                    ctx.holds(r4, site, f"refused with {cls_}")
+                elif must_raise:
+                    ctx.violated(r4, b, f"{typ} data length [{lab}]", f"refused with {e.exc_name}, which is not one of pyhf's exception types")
+                else:
+                    ctx.violated(r4, b, f"{typ} [{lab}]", f"a well-formed modifier is refused with {e.exc_name}")
+            except errs as e:
+                if must_raise and isinstance(e, (TypeError, ValueError, IndexError)) and not isinstance(e, Undecided):
+                    ctx.violated(r4, b, f"{typ} data length [{lab}]", f"the builder fails with a foreign {type(e).__name__} instead of a pyhf exception")
+                else:
+                    ctx.unrecognised(r4, b, f"{typ} [{lab}]", f"not interpretable: {type(e).__name__}: {e}")
+    # ---- overrides of the wrong length
+    red = repo.func(PU, "reduce_paramsets_requirements")
+
+    def req():
+        return {"paramset_type": "constrained_by_poisson", "n_parameters": c(2), "is_scalar": False, "inits": (at("DI0"), at("DI1")), "bounds": ((at("DL0"), at("DH0")), (at("DL1"), at("DH1"))),
+                "auxdata": (at("DA0"), at("DA1")), "factors": (at("DF0"), at("DF1")), "fixed": (False, False)}
+
+    for keyname in ("inits", "bounds", "auxdata", "factors"):
+        for n_, lab in ((1, "too short"), (3, "too long")):
+            val = [[at("a"), at("b")] for _ in range(n_)] if keyname == "bounds" else [at(f"u{j}") for j in range(n_)]
+            site = f"{PU}::reduce_paramsets_requirements [{keyname} override {lab}]"
+            try:
+                Interp({"paramsets_requirements": {"q": [req()]}, "paramsets_user_configs": {"q": {keyname: val}}, "exceptions": Obj("exceptions")}, {}, {}).run(A.strip_docstring(red.node.body))
+                ctx.violated(r6, red, f"override length [{keyname} {lab}]", f"an override of `{keyname}` with {n_} value(s) for a 2-component parameter set is accepted: later components are bound to unrelated values or construction fails elsewhere", expected="raise InvalidModel", found="accepted")
+            except RaisedInFragment as e:
+                if e.exc_name.split(".")[-1] in pyhf_excs:
+                    ctx.holds(r6, site, f"refused with {e.exc_name.split('.')[-1]}")
+                else:
+                    ctx.violated(r6, red, f"override length [{keyname} {lab}]", f"refused with {e.exc_name}, not a pyhf exception")
+            except errs as e:
+                ctx.unrecognised(r6, red, f"override length [{keyname} {lab}]", f"not interpretable: {type(e).__name__}: {e}")
